@@ -448,4 +448,24 @@ PROPS['C09'].update({
     'level_note': 'Relative to LatInv (index/dindex strictly monotone bijections: LatInv.2/3 + L-SLEX/L-LLEX; neighbours = covers: LatInv.5, established by the C03/C05/C06 chain); '
                   'assumed library contracts: heapq, builtin set, itertools.permutations/groupby/starmap, any; SMT<->Lean transcription; termination not proved.',
 })
+_AGREE = ['contexts.definition', 'definitions.__iter__', 'contexts.shape', 'definitions.shape', '_common.Shape._from_pair', '_common.Shape.size',
+          'contexts.tostring', 'definitions.tostring', 'contexts.crc32', 'definitions.crc32', 'contexts.fill_ratio', 'definitions.fill_ratio',
+          'lemma.involution', 'contexts.__init__']
+PROPS['C14']['units'] += _AGREE
+PROPS['C14'].update({
+    'level': 'proof',
+    'proved_part': PROPS['C14']['proved_part'] + '; agreement clauses as corollaries over call-trace contracts: Context.definition() = a new Definition(objects, properties, bools); '
+                   'Definition.__iter__ yields the triple (so Context(*d) receives it); shape = Shape(len(objects), len(properties)) on both sides; tostring = '
+                   'Format[frmat].dumps(objects, properties, bools, **kwargs) on both sides; crc32 = crc32_hex(tostring().encode(encoding)) on both sides; fill_ratio = '
+                   'Fraction(number of true cells, shape.size) on both sides; transposed and inverted are involutions (lemma.involution over their posts); '
+                   'round trip by lemma.fresh_equal and the constructor contracts',
+    'bounded_part': 'the same statements on all small definitions incl. single follow-up edits on source or result (replay / counterexample finder)',
+    'technique': 'contract-based deductive verification with freshness (allocation) obligations and view postconditions per derivation; call-trace contracts for the '
+                 'agreement clauses and z3 lemmas over the contracts; bounded model-based run-time contracts as replay',
+    'level_text': 'All clauses are proved for all definitions/contexts relative to the listed library contracts: derivations (table, freshness), equality, round trip, involutions, and the '
+                  'shape / fill_ratio / table string / crc32 agreement (both sides call the same functions on an equal triple).',
+    'level_note': 'A-HEAP (identity = allocation); SEQ/SET theories; assumed: bitsets frombools/bools/count(), len(set), Fraction, str.encode, zlib.crc32 and Format.dumps are '
+                  'functions of their arguments; the counting lemma (row sizes add up to the number of true cells) is Finset.card_sigma (lemmas/Upset.lean: card_true_cells); '
+                  '"editing either side never changes the other" follows from the freshness obligations and the frame clauses of the C13 mutator units, not a separate obligation.',
+})
 NOT_APPLICABLE = {}
